@@ -646,6 +646,35 @@ impl Crumb {
     }
 }
 
+thread_local! {
+    static FUZZ_REGIONS: std::cell::RefCell<Option<Regions>> = std::cell::RefCell::new(None);
+}
+
+/// In-process variant for the ASan fuzz target: guard pages (a fault is a
+/// crash artifact) plus an exact-size heap copy of the haystack so that ASan
+/// sees any access past either end.
+pub fn c15_fuzz_check(case: &Case, ctx: &mut Ctx) -> Result<(), String> {
+    FUZZ_REGIONS.with(|r| {
+        let mut r = r.borrow_mut();
+        if r.is_none() {
+            *r = Some(Regions::new());
+        }
+        c15_inproc(case, r.as_mut().unwrap(), ctx)
+    })?;
+    // exact-size heap allocation
+    let exact: Box<[u8]> = case.haystack.clone().into_boxed_slice();
+    let s = Searcher::build(&case.cfg, &case.patterns)?;
+    let _ = guard(|| s.try_find_iter(input(&exact, case.span, case.anchored, false))).map_err(|p| format!("exact-size: panic {}", p))?;
+    if let Some(pc) = &case.packed {
+        if !case.patterns.is_empty() && case.patterns.len() <= 128 && case.patterns.iter().all(|p| !p.is_empty()) && case.span.0 <= case.span.1 {
+            if let Some(ps) = build_packed(pc, &case.patterns)? {
+                packed_semantics(&ps, pc, &case.patterns, &exact, case.span, true)?;
+            }
+        }
+    }
+    Ok(())
+}
+
 /// Child process body: `acverif c15-child <tier> <seed> <worker> <cases> <out> <crumb>`.
 pub fn c15_child(tier: Tier, seed: u64, worker: u64, cases: u64, out: &Path, crumb_path: &Path) -> i32 {
     let mut crumb = Crumb::open(crumb_path);
